@@ -518,7 +518,9 @@ Lemma AF_table_add i n a d : AF (table_add i n a d) (fun r => r = 0).
 Proof.
   unfold table_add. apply AF_bind_SA; [saA | intros _]. apply AF_bind_SA; [saA | intros al]. apply AF_bind_SA; [saA | intros _].
   apply AF_bind_SA; [saA | intros vs]. destruct (negb (nthz vs i =? 0)); [apply AF_of_SA, SA_ret|].
-  apply AF_bind_SA; [saA | intros o]. apply AF_bind_SA; [saA | intros _].
+  apply AF_bind_SA; [saA | intros o].
+  match goal with |- AF (if ?c then _ else _) _ => destruct c; [apply AF_of_SA, SA_ret|] end.
+  apply AF_bind_SA; [saA | intros _].
   eapply AF_bind; [apply AF_ensure_ds | | intros ok ->; cbn [negb]; apply RA_ret; reflexivity].
   intros ok. destruct (negb ok); apply AF_of_SA; saA.
 Qed.
@@ -526,7 +528,9 @@ Lemma AF_table_add_offset i r : AF (table_add_offset i r) (fun x => x = 0).
 Proof.
   unfold table_add_offset. apply AF_bind_SA; [saA | intros _].
   apply AF_bind_SA; [saA | intros vs]. destruct (negb (nthz vs i =? 0)); [apply AF_of_SA, SA_ret|].
-  apply AF_bind_SA; [saA | intros o]. apply AF_bind_SA; [saA | intros _].
+  apply AF_bind_SA; [saA | intros o].
+  match goal with |- AF (if ?c then _ else _) _ => destruct c; [apply AF_of_SA, SA_ret|] end.
+  apply AF_bind_SA; [saA | intros _].
   eapply AF_bind; [apply AF_ensure_ds | | intros ok ->; cbn [negb]; apply RA_ret; reflexivity].
   intros ok. destruct (negb ok); apply AF_of_SA; saA.
 Qed.
